@@ -72,10 +72,13 @@ def make_formula_body(formula, default_value, assoc_value=None, indent=''):
     atok = asttokens.ASTText(builder.get_text())
     for node in _multiline_string_nodes(atok, atok.tree):
       # We have a constant or f-string that spans multiple lines. If so, revert its indentation.
-      start, end = atok.get_text_range(node)
+      start, _ = atok.get_text_range(node)
       indented_text = atok.get_text(node)
-      unindented_text = indented_text.replace('\n' + indent, '\n')
-      unindent_patches.append(textbuilder.Patch(start, end, indented_text, unindented_text))
+      # One patch per line break rather than one for the whole literal: positions inside the
+      # literal (the expressions of an f-string) must keep mapping back exactly for renames.
+      for m in re.finditer('\n' + re.escape(indent), indented_text):
+        unindent_patches.append(
+          textbuilder.Patch(start + m.start() + 1, start + m.end(), indent, ''))
 
     return textbuilder.Replacer(builder, unindent_patches)
   else:
